@@ -37,7 +37,7 @@ CHECKS = {
    text="Each proptest-generated write workload runs on a journalling MemFs; every prefix of its totally ordered mutating filesystem calls is rebuilt as a crash image, recovered with varied reuse_log_files/config, compared with the acknowledged state (+ optionally the whole in-flight batch), then written to, closed, reopened and compared again; a sample of recoveries is itself crashed (depth 2). A second campaign records workloads of 2-3 concurrent writers over disjoint key groups (writers held around the WAL append so that group commits form, synchronous and plain writes mixed): there the acceptable states are every thread's acknowledged prefix plus all-or-nothing of each thread's in-flight batch. Enumeration of all crash points of a workload is complete (quick: for journals <= 400 entries); the workloads are a generated sample.",
    note="Crash model: every completed filesystem call is durable, nothing else is (process crash, no page-cache loss); torn calls are C16."),
  "C08": dict(cat="fault_enumeration", ref="3 (C08)", technique="single-fault enumeration over the filesystem call stream of generated workloads (transient and sticky), oracle = acknowledged-writes model with all-or-nothing maybe-set",
-   text="Every filesystem call of a generated workload (after the initial open) is failed once (transient) and persistently (sticky); during the run each read must return an allowed value or an error, writes that returned Ok are in the model, failed writes form an all-or-nothing maybe-set, no call may hang; scans that open the tables themselves (cold table cache after a reopen) and seek walks that retry a failed seek on the same iterator must stand on an allowed pair and must not skip an acknowledged key unless an error is reported; after disarming, close/reopen must succeed and the contents must equal the acknowledged writes plus all-or-nothing of the failed ones. Quick enumerates all positions for runs <= 600 calls.",
+   text="Every filesystem call of a generated workload (after the initial open; create, write/append, flush, rename, remove, open-for-read, read, size, list) is failed once (transient) and persistently (sticky), writes/appends also in a third mode that leaves the first half of the buffer in the file; during the run each read must return an allowed value or an error, writes that returned Ok are in the model, failed writes form an all-or-nothing maybe-set, no call may hang; scans that open the tables themselves (cold table cache after a reopen) and seek walks that retry a failed seek on the same iterator must stand on an allowed pair and must not skip an acknowledged key unless an error is reported; after disarming, close/reopen must succeed and the contents must equal the acknowledged writes plus all-or-nothing of the failed ones. Quick enumerates all positions for runs <= 600 calls.",
    note="Failures have no side effect on the file (partial writes are C16). Scans are judged through the iterator status channel (take_error): a scan that stops early with an error is an error report, one that stops early without is a violation."),
  "C12": dict(cat="exploration", ref="5 (C12)", technique="round-trip property testing of LogWriter/LogReader with an enumerated block-boundary family",
    text="Round-trip through the real LogWriter/LogReader over generated record-length lists, writer re-open points, writer death between fragments and final truncation at any byte, with an independent model of the block layout; the block-boundary arithmetic (offsets within 20 bytes of a boundary x lengths within 20 bytes of the remaining room) is enumerated completely in the thorough tier.",
@@ -50,7 +50,7 @@ CHECKS = {
    note="False positives are allowed by the property and not measured."),
  "C15": dict(cat="fault_enumeration", ref="3 (C15)", technique="corruption enumeration (bit flips / byte replacement at enumerated offsets of every persistent file, table truncations) against a written-values oracle",
    text="Small multi-level images (tiny blocks, compressible and raw blocks, multi-record manifest, live WAL with multi-key batches, in a quarter of the images a WAL record of several log fragments) are built by generated workloads; every persistent file is damaged at enumerated offsets (the 3 unchecksummed header bytes of every WAL/manifest fragment always, with every type value and boundary lengths; quick: 2 mutations per offset of CURRENT/manifest/WAL/table tails, every 3rd offset elsewhere; thorough: 11 mutations at every offset and every table truncation) and the copy is opened with a fresh cache: open fails, or every get/scan returns what was written or an error; WAL damage may skip records atomically. Invented values are always violations.",
-   note="One open known finding excludes (and counts) stale/missing results: unchecksummed manifest fragment header bytes (signature: the damaged byte is the type byte of a manifest fragment header, or a length byte whose new value makes the fragment extend beyond the end of the file; any other header damage fails the payload checksum and must be detected). Panics on damaged input are counted as detected-ungraceful, not as violations. Corruption is applied while the database is closed."),
+   note="One open known finding excludes (and counts) stale/missing results: unchecksummed manifest fragment header bytes (signature: the damaged byte is the type byte of a manifest fragment header, or a length byte whose new value makes the fragment extend beyond the end of the file; any other header damage fails the payload checksum and must be detected). A second open finding with the same root cause covers the type byte of a write-ahead-log fragment (its payload is then decoded as a record of its own; signature: the damaged byte is the type byte of a WAL fragment header). Panics on damaged input are counted as detected-ungraceful, not as violations. Corruption is applied while the database is closed."),
  "C16": dict(cat="fault_enumeration", ref="3 (C16)", technique="torn-write enumeration over journalled generated workloads (append cut at 1, n/2, n-1 bytes; recover, write, reopen)",
    text="Every append to a WAL, manifest or CURRENT temp file of a generated workload is cut to 1, n/2, n-1 bytes (thorough: every length for n<=64 plus the header boundary); the image must recover to acknowledged(+in-flight) state with reuse_log_files on and off, accept 1-5 further writes (incl. a 40 kB one) and still contain them after a clean reopen with either setting. Workloads of 2-3 concurrent writers (group commits) are torn the same way.",
    note="Crash model as C02 plus one partially applied append."),
